@@ -1,7 +1,7 @@
 (* C03 - Target groups are a valid dependency layering of every acyclic configuration (graph level).
    Statement, theorem for the current model, non-vacuity example, assumptions. *)
 From Coq Require Import List Arith.
-From MR Require Import Model.Dag Proofs.DagApi.
+From MR Require Import Lib.Bytes Model.Index Model.Dag Model.IndexGroups Proofs.IndexProof Proofs.DagApi Proofs.IndexGroupsProof.
 Import ListNotations.
 
 (* [api a roots]: build the graph with adjacency list a, make the subtree of every root visible, group.
@@ -22,4 +22,34 @@ Example C03_nonvacuous :
   valid_layering_b [[1; 2]; [2]; []] [0; 1; 2] [[2]; [1]; [0]] = true.
 Proof. split; vm_compute; reflexivity. Qed.
 
+
+(* ---- configuration level: the graph is the one Index::new builds from a well-formed configuration, its edges
+   are exactly the declared dependency relation (C10), the roots are the requested targets (all targets, or the
+   named ones; their dependency closure is what becomes visible) ---- *)
+Definition C03_index_statement (groups : config -> list nat -> res (list (list nat))) : Prop :=
+  forall cfg roots, wf_config cfg -> (forall r, In r roots -> r < length cfg) ->
+    let g := cfg_graph cfg in
+    (forall i j, edge g i j <-> dep_idx cfg i j) /\
+    (~ cyclic_from g roots -> exists gs, groups cfg roots = Ok gs /\ valid_layering g roots gs).
+
+Theorem C03_index_holds : C03_index_statement (fun cfg roots => api_groups (adj_of cfg) roots).
+Proof.
+  intros cfg roots Hwf Hr. destruct (index_groups_spec cfg roots Hwf Hr) as (H1 & H2 & _). split; assumption.
+Qed.
+
+(* ---- pruning to the changed targets (analyze --target-groups with a checkpoint, run without targets):
+   for ANY set of targets to keep, the pruned groups partition exactly the kept members, have no empty group,
+   and a kept target that sat in a strictly earlier group than another kept target still does ---- *)
+Definition C03_prune_statement (prune : list (list str) -> list str -> list (list str)) : Prop :=
+  forall gs keep, NoDup (concat gs) ->
+    NoDup (concat (prune gs keep)) /\
+    (forall x, In x (concat (prune gs keep)) <-> In x (concat gs) /\ mem_str x keep = true) /\
+    (forall g, In g (prune gs keep) -> g <> []) /\
+    (forall x y, before gs x y -> mem_str x keep = true -> mem_str y keep = true -> before (prune gs keep) x y).
+
+Theorem C03_prune_holds : C03_prune_statement prune.
+Proof. exact prune_spec. Qed.
+
 Print Assumptions C03_holds.
+Print Assumptions C03_index_holds.
+Print Assumptions C03_prune_holds.
